@@ -4,6 +4,7 @@
   run.py check <property> [--tier quick|thorough]     the registered check (exit 0 / 1 / 2)
   run.py replay <planfile> [--variant rel|san] [--trace]
   run.py selftest-det [--n N]                          determinism proof over all engines
+  run.py selftest-seeded [ids]                         sensitivity: every seeded/<id>/patch.diff must be caught by the checks its meta.json names
   run.py minimise <planfile> <prop> <sig>              shrink a plan keeping the signature
 
 Every choice derives from VERIF_SEED (default 20260926).  Wall clock is read only here, for
@@ -459,6 +460,25 @@ def selftest_det(n):
     return 2 if bad else 0
 
 
+def selftest_seeded(ids):
+    """sensitivity: every change under seeded/ must be reported by the quick check of each property listed in its meta.json"""
+    root = os.path.join(HERE, "seeded")
+    bad = 0
+    for sid in sorted(os.listdir(root)):
+        if ids and sid not in ids: continue
+        meta = json.load(open(os.path.join(root, sid, "meta.json")))
+        props = list(meta["caught_by"].keys())
+        r = sh([os.path.join(HERE, "checks", "mutcheck.sh"), os.path.join(root, sid, "patch.diff")] + props, timeout=3600)
+        for pr in props:
+            hit = [l for l in r.stdout.splitlines() if l.startswith("VIOLATION property=%s " % pr)]
+            print("seeded/%-4s %s: %s" % (sid, pr, ("caught (%s)" % ", ".join(sorted(set(re.search(r"sig=(\S+)", l).group(1) for l in hit)))) if hit else "NOT CAUGHT"))
+            if not hit: bad += 1
+        for l in r.stdout.splitlines():
+            if l.startswith("MACHINERY"): print("   ", l[:200])
+    print("seeded selftest:", "FAILED" if bad else "ok")
+    return 2 if bad else 0
+
+
 def main():
     a = sys.argv[1:]
     if not a:
@@ -476,6 +496,8 @@ def main():
     if a[0] == "selftest-det":
         n = int(a[a.index("--n") + 1]) if "--n" in a else 600
         return selftest_det(n)
+    if a[0] == "selftest-seeded":
+        return selftest_seeded(a[1:])
     if a[0] == "minimise":
         exe = build("rel")
         text, runs = minimise(exe, open(a[1]).read(), a[2], a[3])
